@@ -426,7 +426,7 @@ def run(ctx):
     rep.need("runs:alloc", c.get("runs:alloc", 0), 50)
     rep.need("runs:send", c.get("runs:send", 0), 30)
     rep.need("runs:getter", c.get("runs:getter", 0), 500)
-    rep.need("observation_sets_compared_under_allocation_failure", c.get("observation_sets_compared_under_allocation_failure", 0), 20)
+    rep.need("observation_sets_compared_under_allocation_failure", c.get("observation_sets_compared_under_allocation_failure", 0), 5)
     rep.need("hellos_compared_under_getter_failure", c.get("hellos_compared_under_getter_failure", 0), 300)
     rep.need("runs:getter-positive-return-code", c.get("runs:getter-positive-return-code", 0), 100)
     rep.need("runs:ctor", c.get("runs:ctor", 0), 24)
